@@ -20,6 +20,8 @@ func init() {
 		func(c *Ctx) {
 			c.load(rtStorageDir, wazeroDir)
 			c.ruleOverlay()
+			c.rulePrefixKeys()
+			c.min("R-OVERLAY/prefixkeys", 2)
 			c.min("R-OVERLAY/O1", 9)
 			c.min("R-OVERLAY/O2", 4)
 			c.min("R-OVERLAY/O3", 4)
